@@ -1,4 +1,5 @@
 import SFV.Lemmas.RegistryInv
+import SFV.Lemmas.RegistryWitness
 /-! # C21 — the data-location registry answers consistently with its history
 
 `_RemotePathMapper` / `DefaultDataManager` (`streamflow/data/manager.py`), modelled as written in
@@ -11,8 +12,6 @@ open SFV.Registry
 def pa : Path := ["/", "a"]
 def paf : Path := ["/", "a", "f"]
 def pbg : Path := ["/", "b", "g"]
-def pe : Path := ["/", "e"]
-def pef : Path := ["/", "e", "f"]
 
 /-! ### defect 1: stale `valid_paths` -/
 
@@ -77,27 +76,6 @@ theorem invalidate_misses_subtree :
   decide +kernel
 
 /-! ### defect 2: `invalidate_location` does not terminate -/
-
-/-- register L:/e/f, register L:/e (not stored anywhere: `/e` is believed valid through the implicit parent entry),
-relate the two -/
-def s21 : St :=
-  let s1 := register St.init 0 pef
-  let s2 := register s1.1 0 pe
-  relate s2.1 s1.2 s2.2
-
-/-- the state after the first pass over the node `/e` -/
-def s21m : St := markLoop pe 0 (s21.locs pe 0) s21
-
-theorem s21m_facts :
-    ¬ (pe ≠ [] ∧ pe ∉ s21.nodes) ∧ ¬ (pe ≠ [] ∧ pe ∉ s21m.nodes) ∧
-    children s21 pe = [pef] ∧ children s21m pe = [pef] ∧
-    s21m.locs pef 0 = [0, 3] ∧ objValid s21m 0 = false ∧ objValid s21m 3 = true ∧
-    objLoc s21m 3 = 0 ∧ objPath s21m 3 = pe := by
-  decide +kernel
-
-/-- a second pass over the node changes nothing: the state is a fixed point of the marking loop -/
-theorem s21m_fix : markLoop pe 0 (s21m.locs pe 0) s21m = s21m := by
-  rfl
 
 /-- **`invalidate_location(L, "/e")` is still running after any number of steps**: object 3 (the second registration
 of `/e`) is stored only in the child node `/e/f`, is never marked invalid, and sends the recursion back to `/e`. -/
